@@ -13,6 +13,7 @@ arbitrary history `ops` of Add (of other items) / Advance (clock not running bac
 `R = rounded tick span t` is the capped timeout rounded up to the tick; the due time is `D = T₀ + R + tick`.
 -/
 import Nebula.Lemmas.Wheel
+import Nebula.Lemmas.WheelTie
 
 namespace Nebula.Props.C33
 open Nebula.Wheel Nebula.Lemmas.Wheel
@@ -60,6 +61,25 @@ theorem findWheel_in_range (tw : TW Nat) (h : WF tw) (hp : Params tw) (t : Int) 
   obtain ⟨k, hk, k1, k2, hf⟩ := findWheel_slot tw h hp t
   refine ⟨?_, k, by unfold rounded; rw [hk], k2, hf⟩
   rw [hf]; unfold slotOf; have := h.2; split <;> omega
+
+/-- Tie to the source: `findWheel` as regenerated from timeout.go (Go `int`/`time.Duration` arithmetic on
+`BitVec 64`, truncating division, both clamps, the single wrap) computes exactly the model's `findWheel`, for every
+`int64` timeout, whenever tick and span are below 2^62 ns and the wheel has fewer than 2^61 slots. An arithmetic
+edit of the Go function changes the regenerated definition and this theorem no longer checks. -/
+theorem findWheel_is_translated (tw : TW Nat) (t : Int)
+    (ht : -(2 ^ 63) ≤ t ∧ t < 2 ^ 63) (htick : 1 ≤ tw.tickDuration ∧ tw.tickDuration < 2 ^ 62)
+    (hspan : 0 ≤ tw.wheelDuration ∧ tw.wheelDuration < 2 ^ 62)
+    (hcur : (tw.current : Int) < 2 ^ 61) (hlen : (tw.wheelLen : Int) < 2 ^ 61) :
+    (Gen.wheel_findWheel (BitVec.ofInt 64 t) (BitVec.ofInt 64 tw.tickDuration) (BitVec.ofInt 64 tw.wheelDuration)
+      (BitVec.ofInt 64 tw.current) (BitVec.ofInt 64 tw.wheelLen)).toInt.toNat = findWheel tw t := by
+  rw [Nebula.Lemmas.WheelTie.fw_eq t _ _ _ _ ht htick hspan ⟨by omega, hcur⟩ ⟨by omega, hlen⟩]
+  rfl
+
+/-- … and the wheel length `NewTimerWheel` computes (`int(max/min + 2)`, regenerated from source) is the model's. -/
+theorem wheelLen_is_translated (tick span : Int) (ht : 1 ≤ tick ∧ tick < 2 ^ 62) (hs : 0 ≤ span ∧ span < 2 ^ 62) :
+    (Gen.wheel_newLen (BitVec.ofInt 64 tick) (BitVec.ofInt 64 span)).toInt.toNat = (Wheel.new tick span : TW Nat).wheelLen := by
+  rw [Nebula.Lemmas.WheelTie.newLen_eq tick span ht hs]
+  rfl
 
 /-- Main theorem.  For every history after the add:
  * the due time `D` lies in `(now₀ + R, now₀ + R + tick]`;
